@@ -25,6 +25,11 @@ use emit::{Kind, Level, Path, SpanId, Timestamp, TraceId, Value};
 use emit_traceparent::{TraceFlags, Traceparent};
 use vcommon::*;
 
+/// Partial / optional states of the formatted types (a traceparent without one of its ids, extents,
+/// span contexts, typed values captured and cast back, path storage forms): see the module text.
+#[path = "../shared/c15_partial.rs"]
+mod partial;
+
 #[derive(Clone, Copy, Debug, PartialEq, Eq, Hash)]
 enum P {
     Ts,
@@ -1007,7 +1012,8 @@ fn main() {
         "C15",
         &args,
         "one evaluation = one input through every entry point of one parser (or one value round trip / calendar conversion / ordered pair); \
-         non-trivial = distinct (parser, input) pairs that are well-formed or exactly one edit away from a well-formed text, plus distinct round-tripped values",
+         non-trivial = distinct (parser, input) pairs that are well-formed or exactly one edit away from a well-formed text, plus distinct round-tripped values \
+         (fully populated ones and partial ones: traceparents without one or both ids, span contexts, extents, tracestates, path forms)",
     );
 
     if let Some(path) = &args.replay {
@@ -1015,6 +1021,18 @@ fn main() {
         if let (Some(p), Some(input)) = (case.get("parser").and_then(|v| v.as_str()).and_then(P::from_name), case.get("input").and_then(|v| v.as_str())) {
             check(&mut r, p, input, "replay", true);
             check(&mut r, p, input, "replay-again", true);
+        } else if let Some(m) = partial::TpModel::from_case(&case) {
+            let ids = (m.trace.unwrap_or(1), m.span.unwrap_or(1));
+            partial::judge_tp(&mut r, m, ids, "replay", None);
+        } else if case.get("partial").is_some() {
+            // the other partial-state sections are small and deterministic: rerun them
+            partial::fixed(&mut r);
+            if let (Some(a), Some(b)) = (
+                case.get("start").and_then(|v| v.as_str()).and_then(|v| v.parse::<u128>().ok()),
+                case.get("end").and_then(|v| v.as_str()).and_then(|v| v.parse::<u128>().ok()),
+            ) {
+                partial::extents_over(&mut r, a, b, "replay");
+            }
         } else if let Some(n) = case.get("unix_nanos").and_then(|v| v.as_str()).and_then(|v| v.parse::<u128>().ok()) {
             roundtrip_ts(&mut r, n);
             roundtrip_ts(&mut r, n.saturating_sub(1));
@@ -1078,6 +1096,15 @@ fn main() {
         let mut g = Rng::stream(seed, &[15, 1, i]);
         roundtrip_ts(r, rand_nanos(&mut g));
         roundtrip_ids(r, &mut g);
+    });
+
+    // 3a. partial / optional states: traceparents without one or both ids x all flags, values the crate builds for
+    // incoming contexts, tracestates, span contexts, extents, timestamp edge constants, captured typed values, path forms
+    partial::fixed(&mut r);
+    let n_partial = args.n(150_000, 3_000_000);
+    par_cases(&mut r, &args, n_partial, |i, r| {
+        let mut g = Rng::stream(seed, &[15, 6, i]);
+        partial::seeded(r, &mut g);
     });
 
     // 3b. every byte value at every position, through the byte-slice entry points
